@@ -702,6 +702,55 @@ func exhaustiveN3() []Plan {
 	return out
 }
 
+// exhaustive strategies of one Byzantine party (the last one) against all other parties of a
+// set of n keypers with threshold t: evaluation per victim x commitment x accused subset x
+// apology x timing
+func exhaustiveOneByz(n, t int) []Plan {
+	var out []Plan
+	evalA := []string{"correct", "wrong", "none"}
+	commits := []string{"correct", "none", "wrongdeg", "dup"}
+	apos := []string{"correct", "wrong", "none"}
+	timings := []string{"in", "late"}
+	byz := n - 1
+	nEv := 1
+	for i := 0; i < byz; i++ {
+		nEv *= 3
+	}
+	seed := uint64(1000 * n * t)
+	for ev := 0; ev < nEv; ev++ {
+		for _, c := range commits {
+			for accMask := 0; accMask < 1<<byz; accMask++ {
+				for _, ap := range apos {
+					for _, tm := range timings {
+						p := honestPlan(n, t, 6, seed)
+						seed++
+						s := defaultStrategy(n, byz)
+						x := ev
+						for v := 0; v < byz; v++ {
+							s.Evals[v] = evalA[x%3]
+							x /= 3
+						}
+						s.Evals[byz] = ""
+						s.Commit = c
+						s.Accuse = nil
+						for v := 0; v < byz; v++ {
+							if accMask&(1<<v) != 0 {
+								s.Accuse = append(s.Accuse, v)
+							}
+						}
+						s.Apology = ap
+						s.TDeal, s.TAcc, s.TApo = tm, tm, tm
+						p.Byz = []Strategy{s}
+						p.MaxEons = 1
+						out = append(out, p)
+					}
+				}
+			}
+		}
+	}
+	return out
+}
+
 func randomPlan(r *vh.RNG) Plan {
 	n := 3 + r.Intn(3)
 	t := 2 + r.Intn(n-2)
@@ -836,7 +885,7 @@ func main() {
 	run := vh.Start("Verif.Corr.C07", 12)
 	run.SetPreamble("From Verif Require Import Model.DKGPure Model.DKGDriver.\nOpen Scope N_scope.")
 	defer run.Finish()
-	run.Rule = "complete DKG runs on n real keyper stacks (smobserver, fx message sender, puredkg, ECIES, one pgfake database each) over tmfake around the real shuttermint app; Byzantine parties from the alphabet eval {correct, wrong, none} per victim x commitment {correct, none, wrong degree, duplicate} x accusation subsets x apology {correct, wrong, none, unasked} x timing {in phase, late, early} x vote; slow honest parties; permuted / partial keyper sets; forced: all-honest n=3..5, each single deviation for n=3,t=2, a failing DKG with restart; thorough: the exhaustive n=3,t=2 one-Byzantine table; non-trivial = a Byzantine or slow party took part and at least one honest keyper finished the DKG; distinct by the JSON rendering of the plan"
+	run.Rule = "complete DKG runs on n real keyper stacks (smobserver, fx message sender, puredkg, ECIES, one pgfake database each) over tmfake around the real shuttermint app; Byzantine parties from the alphabet eval {correct, wrong, none} per victim x commitment {correct, none, wrong degree, duplicate} x accusation subsets x apology {correct, wrong, none, unasked} x timing {in phase, late, early} x vote; slow honest parties; permuted / partial keyper sets; forced: all-honest n=3..5, each single deviation for n=3,t=2, a failing DKG with restart; thorough: the exhaustive one-Byzantine tables for n=3,t=2, n=4,t=2 and n=4,t=3; non-trivial = a Byzantine or slow party took part and at least one honest keyper finished the DKG; distinct by the JSON rendering of the plan"
 
 	var plans []Plan
 	if run.Replay != "" {
@@ -857,6 +906,8 @@ func main() {
 		}
 		if run.Thorough {
 			plans = append(plans, exhaustiveN3()...)
+			plans = append(plans, exhaustiveOneByz(4, 2)...)
+			plans = append(plans, exhaustiveOneByz(4, 3)...)
 			run.Exhaustive = true
 		} else {
 			ex := exhaustiveN3()
